@@ -1433,6 +1433,15 @@ func (g *FuncGen) loopAddsKeys(rng *ssa.Range, blk *ssa.BasicBlock) bool {
 			switch y := in.(type) {
 			case *ssa.MapUpdate:
 				if types.Identical(y.Map.Type(), rng.X.Type()) {
+					// m[k] = v where m is the ranged-over map and k the key this very range just yielded overwrites
+					// an existing entry: no key is inserted
+					if y.Map == rng.X {
+						if ex, ok := y.Key.(*ssa.Extract); ok && ex.Index == 1 {
+							if nx, ok := ex.Tuple.(*ssa.Next); ok && nx.Iter == ssa.Value(rng) {
+								continue
+							}
+						}
+					}
 					return true
 				}
 			case *ssa.Call:
